@@ -93,17 +93,31 @@ def index_domain_wrong(b, prog, walking, div_bb, idxpos, proofpos):
     return [(idx, L) for (idx, L) in DOMAIN if (True if acc is None else acc(idx, L)) != (idx < 2 ** L)]
 
 
+def some_sites(b, prog):
+    """where an Option-returning function answers Some: [(bb, span, atoms holding there)] - `Some(..)` aggregates assigned to the return
+    place, and `cond.then(|| ..)` / `cond.then_some(..)` results (Some exactly when cond holds)"""
+    out = []
+    for (bb, rv, sp, dst) in b.aggregates("core::option::Option", "Some"):
+        if dst["l"] == 0:
+            out.append((bb, sp, list(G.guard_atoms(b, bb, prog))))
+    for c in b.calls():
+        if c.name.rsplit("::", 1)[-1] in ("then", "then_some") and "bool" in c.name and c.dst["l"] == 0 and not c.dst["p"]:
+            pred, args, pol = G.norm_bool(b.operand_term(c.args[0]), True)
+            out.append((c.bb, c.span, list(G.guard_atoms(b, c.bb, prog)) + [(pred, args, pol, c.bb)]))
+    return out
+
+
 def walker_accepts(b, prog, walking, div_bb, idxpos, proofpos):
     """for an Option-returning walker: function (idx, L) -> bool, the conjunction of all index conditions guarding its Some
     results; None when there are none; raises Unknown when a condition cannot be evaluated."""
-    somes = [(bb, sp) for (bb, rv, sp, dst) in b.aggregates("core::option::Option", "Some") if dst["l"] == 0]
+    somes = some_sites(b, prog)
     if not somes:
         return None
     from_div = b.reachable(div_bb)
     per_some = []
-    for (bb, sp) in somes:
+    for (bb, sp, ats_) in somes:
         rel = []
-        for a in G.guard_atoms(b, bb, prog):
+        for a in ats_:
             if a[0] not in ("eq", "lt", "is_some"):
                 continue
             if any(K.mentions(x, lambda t: t[0] == "bin" and t[1] in ("Rem", "BitAnd")) for x in a[1]):
@@ -201,10 +215,10 @@ def check(run, prefix="O15", compose=True):
         # (a) in the walker: a comparison on the walking variable / index guards every non-None, non-panic return
         ok_a = False
         if "Option" in b.rec.get("sig", "").split("->")[-1]:
-            somes = [(bb, sp) for (bb, rv, sp, dst) in b.aggregates("core::option::Option", "Some") if dst["l"] == 0]
+            somes = some_sites(b, prog)
             good = 0
-            for (bb, sp) in somes:
-                for a in G.guard_atoms(b, bb, prog):
+            for (bb, sp, ats_) in somes:
+                for a in ats_:
                     if a[0] in ("eq", "lt") and any(x == walking or K.mentions_arg(b, x, 2) for x in a[1]) and not any(K.mentions(x, lambda t: t[0] == "bin" and t[1] in ("Rem", "BitAnd")) for x in a[1]):
                         good += 1
                         break
